@@ -814,41 +814,48 @@ fn sub_expr(tier: Tier) -> Sub {
                 }
             }
         }
-        let exprform = if cfg.version >= 4 { FORM_EXPRLOC } else { FORM_BLOCK1 };
-        let secoff = if cfg.version >= 4 {
-            FORM_SEC_OFFSET
-        } else if cfg.fmt64 {
-            FORM_DATA8
-        } else {
-            FORM_DATA4
-        };
-        let mut u = UnitM::new(TAG_COMPILE_UNIT);
-        u.dies[0].attrs.push(at(AT_NAME, AV::Str(FORM_STRING, b"u".to_vec())));
-        u.addrs = vec![0x8000, 0x8010];
-        if cfg.version >= 5 {
-            u.dies[0].attrs.push(at(AT_ADDR_BASE, AV::AddrBase));
-        }
-        u.add(0, TAG_BASE_TYPE, vec![at(AT_NAME, AV::Str(FORM_STRING, b"bt".to_vec())), at(AT_BYTE_SIZE, AV::Data(FORM_DATA1, 4))]);
-        let loc = if in_list {
-            u.loclists.push(vec![if cfg.version >= 5 { Lle::StartEnd(0x1000, 0x1010, ops.clone()) } else { Lle::Pair(0x1000, 0x1010, ops.clone()) }]);
-            AV::Locs(secoff, 0)
-        } else {
-            AV::Expr(exprform, ops.clone())
-        };
-        u.add(0, TAG_VARIABLE, vec![at(AT_NAME, AV::Str(FORM_STRING, b"v1".to_vec())), at(AT_LOCATION, loc)]);
-        u.add(0, TAG_VARIABLE, vec![at(AT_NAME, AV::Str(FORM_STRING, b"v2".to_vec())), at(AT_LOCATION, AV::Expr(exprform, vec![Op::Reg(1)]))]);
-        let mut u2 = UnitM::new(TAG_COMPILE_UNIT);
-        u2.add(0, TAG_BASE_TYPE, vec![at(AT_NAME, AV::Str(FORM_STRING, b"x1".to_vec()))]);
-        ctx.nontriv(1);
-        let m = Model { cfg, units: vec![u, u2] };
-        let b = build(&m);
-        let case = || format!("{} expression {:?} in {} sections: {}", cfg.name(), ops, if in_list { "a location-list entry" } else { "DW_AT_location" }, render_secs(&b.secs));
-        if ctx.want_sample() {
-            ctx.sample(case());
-        }
-        check_dwarf(ctx, &b.secs, cfg.big, &[Api::From, Api::StepSeq], "expr", "", &case);
+        run_expr_case(ctx, cfg, ops, in_list, "expr");
     })
 }
+
+/// One expression hosted in DW_AT_location (exprloc/block) or in a location-list entry of a
+/// two-unit input, pushed through the conversion routes.
+fn run_expr_case(ctx: &mut Ctx, cfg: Cfg, ops: Vec<Op>, in_list: bool, tag: &str) {
+    let exprform = if cfg.version >= 4 { FORM_EXPRLOC } else { FORM_BLOCK1 };
+    let secoff = if cfg.version >= 4 {
+        FORM_SEC_OFFSET
+    } else if cfg.fmt64 {
+        FORM_DATA8
+    } else {
+        FORM_DATA4
+    };
+    let mut u = UnitM::new(TAG_COMPILE_UNIT);
+    u.dies[0].attrs.push(at(AT_NAME, AV::Str(FORM_STRING, b"u".to_vec())));
+    u.addrs = vec![0x8000, 0x8010];
+    if cfg.version >= 5 {
+        u.dies[0].attrs.push(at(AT_ADDR_BASE, AV::AddrBase));
+    }
+    u.add(0, TAG_BASE_TYPE, vec![at(AT_NAME, AV::Str(FORM_STRING, b"bt".to_vec())), at(AT_BYTE_SIZE, AV::Data(FORM_DATA1, 4))]);
+    let loc = if in_list {
+        u.loclists.push(vec![if cfg.version >= 5 { Lle::StartEnd(0x1000, 0x1010, ops.clone()) } else { Lle::Pair(0x1000, 0x1010, ops.clone()) }]);
+        AV::Locs(secoff, 0)
+    } else {
+        AV::Expr(exprform, ops.clone())
+    };
+    u.add(0, TAG_VARIABLE, vec![at(AT_NAME, AV::Str(FORM_STRING, b"v1".to_vec())), at(AT_LOCATION, loc)]);
+    u.add(0, TAG_VARIABLE, vec![at(AT_NAME, AV::Str(FORM_STRING, b"v2".to_vec())), at(AT_LOCATION, AV::Expr(exprform, vec![Op::Reg(1)]))]);
+    let mut u2 = UnitM::new(TAG_COMPILE_UNIT);
+    u2.add(0, TAG_BASE_TYPE, vec![at(AT_NAME, AV::Str(FORM_STRING, b"x1".to_vec()))]);
+    ctx.nontriv(1);
+    let m = Model { cfg, units: vec![u, u2] };
+    let b = build(&m);
+    let case = || format!("{} expression {:?} in {} sections: {}", cfg.name(), ops, if in_list { "a location-list entry" } else { "DW_AT_location" }, render_secs(&b.secs));
+    if ctx.want_sample() {
+        ctx.sample(case());
+    }
+    check_dwarf(ctx, &b.secs, cfg.big, &[Api::From, Api::StepSeq], tag, "", &case);
+}
+
 
 // ---------------------------------------------------------------------------
 // Unit kinds
@@ -1185,6 +1192,155 @@ fn sub_cfi_advance(_tier: Tier) -> Sub {
     })
 }
 
+/// Operand boundary values of every operand-carrying expression operation, one operation at a
+/// time (followed by a fixed marker operation), through the conversion routes.
+fn expr_boundary_ops(cfg: Cfg) -> Vec<Vec<Op>> {
+    let ub: [u64; 16] = [0, 1, 31, 32, 33, 127, 128, 255, 256, 16383, 16384, 0xffff_ffff, 0x1_0000_0000, 1 << 35, 1 << 63, u64::MAX];
+    let sb: [i64; 16] = [0, 1, -1, 63, 64, -64, -65, 127, 128, -128, -129, 8191, 8192, -8193, i64::MAX, i64::MIN];
+    let mask = if cfg.asz >= 8 { u64::MAX } else { (1u64 << (8 * cfg.asz as u32)) - 1 };
+    let mut v: Vec<Vec<Op>> = vec![];
+    let tail = Op::Simple(OP_STACK_VALUE);
+    for &u in &ub {
+        v.push(vec![Op::Constu(u), tail.clone()]);
+        v.push(vec![Op::Lit(0), Op::PlusUconst(u), tail.clone()]);
+        v.push(vec![Op::Regx(u & 0xffff)]);
+        v.push(vec![Op::Reg(3), Op::Piece(u)]);
+        v.push(vec![Op::Reg(3), Op::BitPiece(u, u / 2)]);
+        v.push(vec![Op::Addr(u & mask), tail.clone()]);
+        v.push(vec![Op::Const8u(u), tail.clone()]);
+        v.push(vec![Op::Const4u(u as u32), tail.clone()]);
+        v.push(vec![Op::Const2u(u as u16), tail.clone()]);
+        v.push(vec![Op::Const1u(u as u8), tail.clone()]);
+    }
+    for &i in &sb {
+        v.push(vec![Op::Consts(i), tail.clone()]);
+        v.push(vec![Op::Fbreg(i)]);
+        v.push(vec![Op::Breg(31, i)]);
+        v.push(vec![Op::Breg(0, i)]);
+        v.push(vec![Op::Bregx(32, i)]);
+        v.push(vec![Op::Bregx(65535, i)]);
+        v.push(vec![Op::Const1s(i as i8), tail.clone()]);
+        v.push(vec![Op::Const2s(i as i16), tail.clone()]);
+        v.push(vec![Op::ImplicitPointer(T::Die(0, 3), i)]);
+    }
+    for r in [0u8, 1, 30, 31] {
+        v.push(vec![Op::Reg(r)]);
+        v.push(vec![Op::Lit(r), tail.clone()]);
+    }
+    for n in [0u8, 1, 2, 127, 128, 255] {
+        v.push(vec![Op::Lit(1), Op::Lit(2), Op::Lit(3), Op::Pick(n.min(2)), tail.clone()]);
+        v.push(vec![Op::Breg(1, 0), Op::DerefSize(n), tail.clone()]);
+        v.push(vec![Op::Lit(1), Op::Breg(1, 0), Op::XderefSize(n), tail.clone()]);
+    }
+    for l in [0usize, 1, 2, 127, 128, 129, 255, 256, 300] {
+        v.push(vec![Op::ImplicitValue((0..l).map(|k| k as u8).collect())]);
+        // nested block whose byte length crosses the one-byte ULEB boundary
+        v.push(vec![Op::EntryValue((0..l.max(1)).map(|k| Op::Reg((k % 32) as u8)).collect()), tail.clone()]);
+        v.push(vec![Op::ConstType(T::Die(0, 1), (0..l.min(255)).map(|k| k as u8).collect()), tail.clone()]);
+    }
+    v
+}
+
+fn sub_expr_boundaries(_tier: Tier) -> Sub {
+    let cfgs: Vec<Cfg> = vec![Cfg { version: 2, fmt64: false, asz: 4, big: false }, Cfg { version: 3, fmt64: true, asz: 8, big: true }, Cfg { version: 4, fmt64: false, asz: 8, big: false }, Cfg { version: 5, fmt64: true, asz: 4, big: true }, Cfg { version: 5, fmt64: false, asz: 8, big: false }];
+    let n = expr_boundary_ops(cfgs[0]).len() as u64;
+    let len = n * 2 * cfgs.len() as u64;
+    Sub::new("expression-operand-boundaries", len, &format!("{} single-operation expressions: constu/plus_uconst/regx/piece/bit_piece/addr/const1u-8u over ULEB boundaries {{0,1,31,32,33,127,128,255,256,2^14-1,2^14,2^32-1,2^32,2^35,2^63,2^64-1}}, consts/fbreg/breg0/breg31/bregx/const1s/const2s/implicit_pointer offsets over SLEB boundaries, reg/lit 0,1,30,31, pick/deref_size/xderef_size 0,1,2,127,128,255, implicit_value/entry_value/const_type blocks of 0..300 bytes (around the 127/128 and 255/256 length boundaries) x carrier {{DW_AT_location, location-list entry}} x 5 configs", n), move |ctx, i| {
+        let mut x = Mix(i);
+        let in_list = x.flag();
+        let cfg = *x.pick(&cfgs);
+        let ops = expr_boundary_ops(cfg)[x.take(n) as usize].clone();
+        run_expr_case(ctx, cfg, ops, in_list, "exprb");
+    })
+}
+
+/// Operand boundary values of every operand-carrying call frame instruction through
+/// FrameTable::from and back.
+fn cfa_boundary_insns() -> Vec<Vec<Cfa>> {
+    let regs: [u64; 9] = [0, 1, 63, 64, 127, 128, 255, 256, 65535];
+    let uoff: [u64; 12] = [0, 1, 63, 64, 127, 128, 16383, 16384, 0x7fff_ffff, 0x8000_0000, 0xffff_ffff, 0x1_0000_0000];
+    let soff: [i64; 14] = [0, 1, -1, 63, 64, -64, -65, 8191, -8192, -8193, 0x7fff_ffff, -0x8000_0000, 0x8000_0000, -0x8000_0001];
+    let mut v: Vec<Vec<Cfa>> = vec![];
+    for &r in &regs {
+        v.push(vec![Cfa::DefCfa(r, 16)]);
+        v.push(vec![Cfa::DefCfaRegister(r)]);
+        v.push(vec![Cfa::OffsetExtended(r, 2)]);
+        v.push(vec![Cfa::OffsetExtendedSf(r, -2)]);
+        v.push(vec![Cfa::ValOffset(r, 2)]);
+        v.push(vec![Cfa::ValOffsetSf(r, -2)]);
+        v.push(vec![Cfa::Undefined(r)]);
+        v.push(vec![Cfa::SameValue(r)]);
+        v.push(vec![Cfa::Register(r, 1)]);
+        v.push(vec![Cfa::Register(1, r)]);
+        v.push(vec![Cfa::Expression(r, vec![Op::Breg(7, 8)])]);
+        v.push(vec![Cfa::ValExpression(r, vec![Op::Breg(7, 8)])]);
+        v.push(vec![Cfa::Offset(16, 2), Cfa::RestoreExtended(r)]);
+        if r < 64 {
+            v.push(vec![Cfa::Offset(r as u8, 3)]);
+            v.push(vec![Cfa::Offset(16, 2), Cfa::Restore(r as u8)]);
+        }
+    }
+    for &o in &uoff {
+        v.push(vec![Cfa::DefCfa(7, o)]);
+        v.push(vec![Cfa::DefCfaOffset(o)]);
+        v.push(vec![Cfa::Offset(3, o)]);
+        v.push(vec![Cfa::OffsetExtended(70, o)]);
+        v.push(vec![Cfa::ValOffset(4, o)]);
+        v.push(vec![Cfa::GnuArgsSize(o)]);
+    }
+    for &o in &soff {
+        v.push(vec![Cfa::DefCfaSf(7, o)]);
+        v.push(vec![Cfa::DefCfaOffsetSf(o)]);
+        v.push(vec![Cfa::OffsetExtendedSf(3, o)]);
+        v.push(vec![Cfa::ValOffsetSf(4, o)]);
+    }
+    for l in [0usize, 1, 127, 128, 255, 256] {
+        let ops: Vec<Op> = (0..l).map(|k| Op::Lit((k % 32) as u8)).collect();
+        v.push(vec![Cfa::DefCfaExpression(ops.clone())]);
+        v.push(vec![Cfa::Expression(3, ops.clone())]);
+        v.push(vec![Cfa::ValExpression(3, ops)]);
+    }
+    v
+}
+
+fn sub_cfi_boundaries(_tier: Tier) -> Sub {
+    let kinds: Vec<(bool, u8)> = vec![(false, 1), (false, 3), (false, 4), (true, 1)];
+    let cfgs: Vec<Cfg> = vec![Cfg { version: 4, fmt64: false, asz: 8, big: false }, Cfg { version: 4, fmt64: true, asz: 4, big: true }];
+    let factors: Vec<(u64, i64)> = vec![(1, -8), (4, 1), (1, -1), (2, 8)];
+    let n = cfa_boundary_insns().len() as u64;
+    let len = n * kinds.len() as u64 * cfgs.len() as u64 * factors.len() as u64;
+    Sub::new("cfi-operand-boundaries", len, &format!("{} FDE programs [advance_loc 1; <instruction with boundary operand>; advance_loc 1; nop]: every register-carrying instruction with register {{0,1,63,64,127,128,255,256,65535}}, every unsigned-offset instruction with {{0,1,63,64,127,128,2^14-1,2^14,2^31-1,2^31,2^32-1,2^32}}, every signed-offset instruction with SLEB/i32 boundaries, expressions of 0..256 bytes x section {{.debug_frame v1/v3/v4, .eh_frame v1}} x (code, data) alignment factors {:?} x 2 configs", n, factors), move |ctx, i| {
+        let mut x = Mix(i);
+        let (caf, daf) = *x.pick(&factors);
+        let (eh, ver) = *x.pick(&kinds);
+        let cfg = *x.pick(&cfgs);
+        if eh && cfg.fmt64 {
+            ctx.outcome("cfib:eh_frame-64bit-not-generated");
+            return;
+        }
+        let mut insns = vec![Cfa::AdvanceLoc(1)];
+        insns.extend(cfa_boundary_insns()[x.take(n) as usize].clone());
+        insns.push(Cfa::AdvanceLoc(1));
+        insns.push(Cfa::Nop);
+        let m = FrameM {
+            eh,
+            cfg,
+            cies: vec![CieM { version: ver, aug: Aug::none(), caf, daf, ra: 16, init: vec![Cfa::DefCfa(7, 8), Cfa::Offset(16, 1)] }],
+            fdes: vec![FdeM { cie: 0, addr: 0x1000, len: 0x100, lsda: None, insns: insns.clone() }],
+        };
+        ctx.nontriv(1);
+        let case = || format!("{} {} CIE version {} code_alignment_factor={} data_alignment_factor={} FDE instructions {:?} section: {}", cfg.name(), if eh { ".eh_frame" } else { ".debug_frame" }, ver, caf, daf, insns, mcx::hex(&build_frame(&m)));
+        if ctx.want_sample() {
+            ctx.sample(case());
+        }
+        let mut feats: Vec<&str> = vec![];
+        if insns.iter().any(|c| matches!(c, Cfa::DefCfa(_, o) | Cfa::DefCfaOffset(o) if *o > i32::MAX as u64)) {
+            feats.push("cfa-offset>=2^31");
+        }
+        check_frame(ctx, &m, "cfib", feats.first().cloned().unwrap_or(""), &case);
+    })
+}
+
 const NFK: u64 = 14;
 
 fn sub_cfi_params(_tier: Tier) -> Sub {
@@ -1292,7 +1448,7 @@ fn sub_cfi_params(_tier: Tier) -> Sub {
 }
 
 pub fn subs(tier: Tier) -> Vec<Sub> {
-    let mut v = vec![sub_line(tier, false, false), sub_line(tier, true, false), sub_line_hdr(tier), sub_lists(tier), sub_expr(tier), sub_unit_kinds(tier), sub_cfi(tier, false, false), sub_cfi(tier, true, false), sub_cfi(tier, false, true), sub_cfi_params(tier), sub_cfi_advance(tier), sub_line_regs(tier), sub_line_schedules(tier)];
+    let mut v = vec![sub_line(tier, false, false), sub_line(tier, true, false), sub_line_hdr(tier), sub_lists(tier), sub_expr(tier), sub_unit_kinds(tier), sub_cfi(tier, false, false), sub_cfi(tier, true, false), sub_cfi(tier, false, true), sub_cfi_params(tier), sub_cfi_advance(tier), sub_cfi_boundaries(tier), sub_expr_boundaries(tier), sub_line_regs(tier), sub_line_schedules(tier)];
     if tier == Tier::Thorough {
         v.push(sub_line(tier, false, true));
     }
@@ -1318,6 +1474,8 @@ pub fn required() -> Vec<String> {
         "cfi:daf=0",
         "cfip:ok",
         "cfiadv:ok",
+        "cfib:ok",
+        "exprb:ok",
         "sched:agrees",
         "sched:baseline-ok",
         "cfiadv:reconvert-identical",
